@@ -20,7 +20,7 @@ TECHNIQUE = 'differential monitor source vs. defragmented copy through the real 
 RULE = ('sources from vlib.model.gen_file / build_file with scale graphs; non-trivial = source where some channel has data in >=2 segments, or '
         'contains an empty/untyped channel; distinct = per-segment signatures')
 ASSUMPTIONS = ['group and channel order of the copy is compared too (defragment writes them in source order)']
-REQUIRED = ['defragment_calls', 'channels_compared', 'props_compared', 'scaled_compared', 'dest:path', 'dest:stream', 'index:on', 'empty_or_untyped_channels',
+REQUIRED = ['copy_compared_with_model', 'defragment_calls', 'channels_compared', 'props_compared', 'scaled_compared', 'dest:path', 'dest:stream', 'index:on', 'empty_or_untyped_channels',
             'copies_strict_parsed']
 N = {'quick': 2400, 'thorough': 20000}
 
@@ -171,6 +171,11 @@ def run_case(case, ctx):
                 ctx.violation('length-differs', dict(info, src=len(ca), dst=len(cb)))
                 continue
             ra, rb = ca.read_data(scaled=False), cb.read_data(scaled=False)
+            t_model = exp.types.get(ca.path)
+            if t_model is not None and len(ca):
+                ctx.count('copy_compared_with_model')
+                if not C.img_equal(C.image(rb), C.expected_image(t_model, exp.flat(ca.path))):
+                    ctx.violation('copy-differs-from-model/%s' % t_model, dict(info, copy=C.short(C.image(rb)), model=C.short(C.expected_image(t_model, exp.flat(ca.path)))))
             if not C.img_equal(C.image(ra), C.image(rb)) and len(ca):
                 ctx.violation('raw-values-differ/%s' % (ca.data_type.__name__ if ca.data_type else 'untyped'), dict(info, src=C.short(C.image(ra)), dst=C.short(C.image(rb))))
             if len(ca) > 0:
